@@ -233,12 +233,14 @@ func (c *Chain) Submit(raw []byte, origin string) *Tx {
 // application and stores the responses. sel == nil selects everything pending in arrival order.
 func (c *Chain) MakeBlock(sel Selector) *Block {
 	c.mu.Lock()
-	defer c.mu.Unlock()
 	h := int64(len(c.blocks)) + 1
-	chosen := c.mempool
+	chosen := append([]*Tx{}, c.mempool...)
+	c.mu.Unlock()
 	if sel != nil {
-		chosen = sel(h, append([]*Tx{}, c.mempool...))
+		chosen = sel(h, append([]*Tx{}, chosen...))
 	}
+	c.mu.Lock()
+	defer c.mu.Unlock()
 	inBlock := map[*Tx]bool{}
 	inPool := map[*Tx]bool{}
 	for _, t := range c.mempool {
